@@ -206,18 +206,18 @@ Definition with_algorithm (a : string) (p : value) : value :=
 Definition fill_default (p : value) : value :=
   if algo_unnamed p then with_algorithm "deny-overrides" p else p.
 (* ... and at every level of a (nested) policy set *)
+Definition map_children (f : value -> value) (v : value) : value :=
+  match v with VList cs => VList (map f cs) | _ => v end.
+Definition map_policies (f : value -> value) : list (string * value) -> list (string * value) :=
+  fix go (l : list (string * value)) : list (string * value) :=
+    match l with
+    | [] => []
+    | (k, v) :: r => (k, if String.eqb k "policies" then map_children f v else v) :: go r
+    end.
 Fixpoint fill_deep (p : value) : value :=
   match p with
   | VObj kvs =>
-      let kvs' :=
-        (fix go (l : list (string * value)) : list (string * value) :=
-           match l with
-           | [] => []
-           | (k, v) :: r =>
-               (k, if String.eqb k "policies"
-                   then match v with VList cs => VList (map fill_deep cs) | _ => v end
-                   else v) :: go r
-           end) kvs in
+      let kvs' := map_policies fill_deep kvs in
       if algo_unnamed p then VObj (dict_set "algorithm" (VStr "deny-overrides") kvs') else VObj kvs'
   | _ => p
   end.
